@@ -60,8 +60,7 @@ Lemma mcv_manual_changed fuel n old run_cc s r s' x :
   exists x', nodes s' !! n = Some x' /\ n_changed_at x' = stab_num s.
 Proof.
   intros Hn H. unfold maybe_change_value_manual in H. cbn [negb] in H.
-  apply bindM_ok in H as (st & s0 & E0 & H). unfold gets in E0. injection E0 as <- <-.
-  apply bindM_ok in H as ([] & s1 & E1 & H). rewrite upd_node_eq in E1. injection E1 as <-.
+  apply bindM_ok in H as ([] & s1 & E1 & H). unfold stamp_node, modify in E1. injection E1 as <-.
   match type of H with ?m ?s1 = _ =>
     assert (pres Rchg m) as P by go_chg; specialize (P s1)
   end.
